@@ -53,6 +53,16 @@ func CheckViews(n datamodel.Node, tview, rview val.V, what string) error {
 	if !val.Equal(rgot, rview, val.Ordered) {
 		return fmt.Errorf("%s: representation view differs: %s (got vs want)", what, val.Diff(rgot, rview))
 	}
+	// reading one view does not disturb the other: the type-level view once more (a plain read), then the
+	// representation once more
+	again, err := (&nodes.Reader{Typed: true}).Read(n)
+	if err != nil || !val.Equal(again, tview, val.Ordered) {
+		return fmt.Errorf("%s: after its representation was read, the type-level view reads differently: %s (err %v)", what, val.Diff(again, tview), err)
+	}
+	ragain, err := nodes.Plain.Read(rn)
+	if err != nil || !val.Equal(ragain, rview, val.Ordered) {
+		return fmt.Errorf("%s: the representation view reads differently the second time: %s (err %v)", what, val.Diff(ragain, rview), err)
+	}
 	return nil
 }
 
